@@ -462,6 +462,17 @@ Definition is_hostport_split (s h p : str) : bool :=
   negb (has_colon p)
   && ((beq s (h ++ [58] ++ p) && negb (is_bracketed h)) || beq s ([91] ++ h ++ [93] ++ [58] ++ p)).
 
+(* the same as propositions, for the theorems.  [h] is [h0] without its brackets when [h0]
+   has the form "[" inner "]", and [h0] itself otherwise *)
+Definition unbracket_spec (h0 h : str) : Prop :=
+  (exists inner, h0 = [91] ++ inner ++ [93] /\ h = inner) \/
+  ((forall inner, h0 <> [91] ++ inner ++ [93]) /\ h = h0).
+(* no ':' at all: the whole string is the host.  Otherwise the last ':' separates the port
+   (which therefore contains none) and the host loses its brackets *)
+Definition hostport_spec (s h p : str) : Prop :=
+  (has_colon s = false /\ h = s /\ p = []) \/
+  (exists h0, s = h0 ++ [58] ++ p /\ has_colon p = false /\ unbracket_spec h0 h).
+
 (* ====================== finding regions and domain ====================== *)
 Scheme Equality for fld.
 
